@@ -151,10 +151,12 @@ def run_property(ctx, prop, replay=None):
     import random
     rng = random.Random(ctx.seed * 1000 + SEED_SHIFT[prop])
     ctx.rng = rng
+    fixed = None
     if replay and "spec" in replay.get("data", {}):
-        ctx.explanation.append("replay: the stored graph spec is re-run under freshly drawn schedules (the schedule is the driver's state)")
-    n = 1200 if ctx.thorough else 110
-    cases = travgen.run_batch(ctx, n, FLAVOURS[prop], prop.lower())
+        d = replay["data"]
+        fixed = (d["spec"], d["initial_pools"], d["schedule"])
+    n = 0 if fixed else (1200 if ctx.thorough else 110)
+    cases = travgen.run_batch(ctx, n, FLAVOURS[prop], prop.lower(), fixed=fixed)
     bad = [c for c in cases if not c["agrees"]]
     ctx.obligation("correspondence:traversal-traces", "correspondence", not bad,
                    f"{len(bad)} of {len(cases)} traversals differ from Model/TraverseRun.v in some atomic section")
